@@ -75,11 +75,22 @@ const c16MaxAuths = 6
 // (workers pool job + chain.AuthBatch + per-type batch worker goroutine + ED25519Batch) on n transactions whose auth is
 // ed25519 (batched) or an unbatched scheme, each valid or invalid: the job fails iff some signature is invalid.
 func VerifC16() {
+	n := 1 + verifChoose("txs", verifParam("maxTxs", 4, c16MaxAuths))
+	cores := 1 + verifChoose("cores", 2)
+	c16Run(n, cores, false)
+}
+
+// VerifC16Tail: counts that do not split into full ed25519 batches (batch size max(count/cores, 4) with 2 cores: 5, and
+// thorough 6, signatures — the trailing partial batch is handed out only by Done), all transactions ed25519, parallel pool.
+func VerifC16Tail() {
+	n := 5 + verifChoose("extraTxs", verifParam("tailExtraTxs", 1, 2))
+	c16Run(n, 2, true)
+}
+
+func c16Run(n, cores int, tail bool) {
 	c16batchBad = nil
 	priv := ed25519.PrivateKey(stded.NewKeyFromSeed(make([]byte, 32)))
 	factory := NewED25519Factory(priv)
-	n := 1 + verifChoose("txs", verifParam("maxTxs", 4, c16MaxAuths))
-	cores := 1 + verifChoose("cores", 2)
 	// at most `maxInvalid` invalid signatures at arbitrary positions
 	bad1 := verifChoose("invalidAt", n+1) - 1 // -1: none
 	bad2 := -1
@@ -104,7 +115,7 @@ func VerifC16() {
 		if !valid {
 			anyBad = true
 		}
-		if verifChoose("scheme", 2) == 0 {
+		if tail || verifChoose("scheme", 2) == 0 {
 			a, err := factory.Sign(msgs[i])
 			if err != nil {
 				verifFail("sign-error")
@@ -121,7 +132,7 @@ func VerifC16() {
 		}
 	}
 	var pool workers.Workers
-	if verifChoose("serialWorkers", 2) == 1 {
+	if !tail && verifChoose("serialWorkers", 2) == 1 {
 		pool = workers.NewSerial()
 	} else {
 		pool = workers.NewParallel(cores, 2)
